@@ -29,6 +29,7 @@ class Contract:
     locals: dict = field(default_factory=dict)     # local name -> type text (for empty literals)
     properties: list = field(default_factory=list)  # property ids this contract serves
     pure: bool = False                             # no side effects (may be called from spec text)
+    axiom_clauses: list | None = None               # pure: ensures clauses that go into the global (quantified) axiom; others only at ground call sites
     inline: str | None = None                      # pure and defined by this expression: callers substitute it
     is_property: bool = False                      # @property
     yields: str | None = None                      # generator: set expression of the yielded items
